@@ -2,7 +2,7 @@
    with the model by vm_compute, plus the tested bridge "well-formed inputs
    satisfy the side condition of the theorems".  Executable, no proofs. *)
 From Coq Require Import ZArith Bool List.
-From ELA Require Import lib.GoFloat model.C27_Reward proof.C27_Reward.
+From ELA Require Import lib.GoFloat model.C27_Reward proof.C27_Reward proof.C27_Rounding.
 Import ListNotations.
 Local Open Scope Z_scope.
 
@@ -34,13 +34,18 @@ Definition inputs_ok (s : st) (v : version) (reward : Z) : bool :=
   forallb (fun a => match exact_of 0 (fun _ => 0) s v a with Some _ => true | None => false end) (s_arbs s).
 
 (* ids: model/implementation disagreement = case id;
-        well-formed inputs that violate the side condition = 1000000 + case id *)
+        well-formed inputs that violate the side condition = 1000000 + case id;
+        Go float expression differs from exact-then-round (R64) = 2000000 + case id *)
 Definition check (c : case) : list N :=
   match c with
   | CDist id s h reward out =>
       let v := version_of s h in
       (if result_eqb (distribute s h reward) out then [] else [id]) ++
-      (if inputs_ok s v reward && negb (go_sane s v reward) then [(1000000 + id)%N] else [])
+      (if inputs_ok s v reward && negb (go_sane s v reward) then [(1000000 + id)%N] else []) ++
+      (* Go's float expressions = exact rational operation followed by binary64 rounding *)
+      (if inputs_ok s v reward && (0 <? s_total s) &&
+          negb (go_matches_R64 reward (count_of s v) (s_total s) (0 :: map snd (s_votes s)))
+       then [(2000000 + id)%N] else [])
   end.
 
 Definition mismatches (cs : list case) : list N := flat_map check cs.
